@@ -169,7 +169,11 @@ static void handle_new_jet_connection(struct io_event *ev, int fd, bool is_local
 	br.set_error_handler = buffered_socket_set_error;
 	br.writev = buffered_socket_writev;
 
-	init_socket_peer(peer, &br, is_local_connection);
+	if (unlikely(init_socket_peer(peer, &br, is_local_connection) < 0)) {
+		log_err("Could not initialize jet peer!\n");
+		cjet_free(bs);
+		goto alloc_bs_failed;
+	}
 	return;
 
 alloc_bs_failed:
